@@ -62,18 +62,24 @@ def gen_program(rng, kind=None):
     return {"kind": kind, "p": rng.randint(0, n), "n": n, # (EOFError, the last entry, is the recorded finding: kept rare, and left to the plain "body" kind, where no 15 s wait for a warning is involved)
             "exc": (len(EXCS) - 1) if (rng.random() < 0.03 and kind != "body_peer_dropped") else rng.randrange(len(EXCS) - 1),
             "dropped": rng.random() < 0.4,
-            "own_exec_channel": rng.random() < 0.35,
+            "own_exec_channel": rng.random() < 0.35, "deep": rng.choice((0, 0, 0, 4, 130, 300)),
             "consume": rng.choice(("receive", "waitclose_first", "concurrent")), "siblings": rng.choice((0, 2, 3))}
 
 
-def body_source(hid, p, exc):
+def body_source(hid, p, exc, deep=0):
+    """-> (source, line of the failing statement); with deep, that statement sits `deep` frames below the body's top level
+    (the traceback text must still name it)"""
     name, ctor, _msg = EXCS[exc]
     lines = ["class MyRemoteFailure(Exception):", "    pass", f"for i in range({p}):", f"    channel.send(({hid}, i))"]
-    if ctor is None:
-        lines.append("1 / 0")
+    failing = "1 / 0" if ctor is None else f"raise {ctor}"
+    if deep:
+        lines += ["def _deep(n):", "    if n <= 0:", "        " + failing]
+        errline = len(lines)
+        lines += ["    return _deep(n - 1)", f"_deep({deep})"]
     else:
-        lines.append(f"raise {ctor}")
-    return "\n".join(lines) + "\n", len(lines)
+        lines.append(failing)
+        errline = len(lines)
+    return "\n".join(lines) + "\n", errline
 
 
 def check_remote_error_text(res, text, exc, label, m, where_line=None):
@@ -235,7 +241,7 @@ def run_program(res: Result, lab, prog, label, hid):
                 if other:
                     real_stderr.write("\n".join(other[:20]) + "\n")
         elif kind == "body":
-            src, errline = body_source(hid, p, exc)
+            src, errline = body_source(hid, p, exc, deep=prog.get("deep", 0))
             ch = gw.remote_exec(src)
             got, first_error, terminal = [], None, None
             if prog["consume"] == "waitclose_first":
